@@ -25,10 +25,11 @@ func (e *Engine) rootsAtField(v ssa.Value, typSuffix, field string) bool {
 }
 
 func runC19(e *Engine, r *Report, tier string) {
-	r.Explanation = "C19, structural clauses. Decided: R1 lifecycle of the IBC transfer relation (erc20 family 0x04, set by the precompile's IBC send keyed channel/sequence): in the middleware keeper every success path of the acknowledgement handler and of the timeout handler passes through a call that (through the wired crosschain -> erc20 keepers) deletes family 0x04, with key arguments rooted in packet.SourceChannel / packet.Sequence and passed through unchanged; R2 the refund re-converts to ERC-20 only behind `delete of 0x04 returned true`, for the packet's sender as both payer and receiver; R3 inbound: conversion to ERC-20 is dominated by `denom != FX` and `receiver is a hex address` (else error), its coin amount is the packet amount, and every keeper error becomes an error acknowledgement after the inner module succeeded (never the success ack); R4 the memo call's EVM sender is the hash of (packet source port/channel, packet data sender) and nothing else. Not decided: duplicated/replayed acknowledgements (IBC core), whether source or destination channel identifiers are the right uniqueness domain (observation in DESIGN.md)."
+	r.Explanation = "C19, structural clauses. Decided: R1 lifecycle of the IBC transfer relation (erc20 family 0x04, set by the precompile's IBC send keyed channel/sequence): in the middleware keeper every success path of the acknowledgement handler and of the timeout handler passes through a call that (through the wired crosschain -> erc20 keepers) deletes family 0x04, with key arguments rooted in packet.SourceChannel / packet.Sequence and passed through unchanged; R2 the refund re-converts to ERC-20 only behind `delete of 0x04 returned true`, for the packet's sender as both payer and receiver; R3 inbound: conversion to ERC-20 is dominated by `denom != FX` and `receiver is a hex address` (else error), its coin amount is the packet amount, and every keeper error becomes an error acknowledgement after the inner module succeeded (never the success ack); R7 every success return of the routine behind the inbound conversion call follows the erc20 ConvertCoin call (no `nothing to do` early success); R4 the memo call's EVM sender is the hash of (packet source port/channel, packet data sender) and nothing else. Not decided: duplicated/replayed acknowledgements (IBC core), whether source or destination channel identifiers are the right uniqueness domain (observation in DESIGN.md)."
 	r.Rule("R1", "relation 0x04 deleted on ack-success, ack-error and timeout; keyed by packet source channel + sequence; ack classified by response type", 5, "terminal callbacks of the middleware keeper")
 	r.Rule("R2", "refund converts only if the relation existed; holder = packet sender", 2, "")
 	r.Rule("R3", "inbound conversion guarded; keeper error -> error acknowledgement", 3, "")
+	r.Rule("R7", "the inbound conversion routine converts to ERC-20 on every success path", 1, "implementations of the conversion call in OnRecvPacket")
 	r.Rule("R6", "a failing conversion of a received coin fails the packet (its error is never swallowed): C04.R8 at the middleware", 1, "C04 obligations")
 	{
 		sub04 := NewReport("C04", "other")
@@ -365,6 +366,39 @@ func runC19(e *Engine, r *Report, tier string) {
 				}
 			}
 			r.Check(ok && amt, "R3", e.FnKey(fn)+" amount", e.InstrPos(conv), "converted coin amount = packet amount; error propagates", "the converted amount is not the packet's amount or the conversion error is dropped")
+			// R7: the routine behind that call credits ERC-20 on every success path — a success return that skips the erc20
+			// conversion leaves plain bank coins behind a hex address and still yields a success acknowledgement
+			nimpl := 0
+			for _, impl := range e.calleesOf(conv) {
+				if impl.Blocks == nil || isAuxPkg(fnPkgPath(impl)) {
+					continue
+				}
+				nimpl++
+				isConv := func(i ssa.Instruction) bool {
+					c2, ok := i.(ssa.CallInstruction)
+					if !ok {
+						return false
+					}
+					if canonName(callName(c2)) == "ConvertCoin" {
+						return true
+					}
+					for _, cal := range e.calleesOf(c2) {
+						if cal != impl && canonName(cal.Name()) == "ConvertCoin" {
+							return true
+						}
+					}
+					return false
+				}
+				ck := e.CanonFnKey(impl) + " credits-erc20"
+				if ret := MustPassThrough(impl, nil, isConv); ret != nil {
+					r.Fail("R7", ck, e.InstrPos(ret), "a success return of the inbound conversion routine is reached without the ERC-20 conversion: the received coins stay as bank coins of the hex account while the packet is acknowledged as successful")
+				} else {
+					r.Ok("R7", ck, e.Pos(impl.Pos()), "every success return follows the erc20 ConvertCoin call")
+				}
+			}
+			if nimpl == 0 {
+				r.Fail("R7", "inbound conversion routine", e.InstrPos(conv), "UNRESOLVED-ANCHOR: no implementation of the inbound conversion call")
+			}
 		}
 	}
 	// middleware: keeper error -> error ack
